@@ -29,12 +29,23 @@ Proof. split; [apply forallb_negb_filter | apply filter_nil_forallb]. Qed.
 
 Lemma state_ok_split t :
   state_ok t = true <->
-  mutated_defaults t = [] /\ all_own t = true /\ globals_read t = [] /\ mutated_class_attrs t = [] /\ process_leaks t = [].
+  mutated_defaults t = [] /\ all_own t = true /\ globals_read t = [] /\ mutated_class_attrs t = [] /\ process_leaks t = []
+  /\ argument_writes t = [].
 Proof.
   unfold state_ok. split.
-  - intro H. apply andb_true_iff in H as [H H5]. apply andb_true_iff in H as [H H4]. apply andb_true_iff in H as [H H3].
-    apply andb_true_iff in H as [H1 H2]. repeat split; auto using is_nil_true.
-  - intros (H1 & H2 & H3 & H4 & H5). rewrite H1, H2, H3, H4, H5. reflexivity.
+  - intro H. apply andb_true_iff in H as [H H6]. apply andb_true_iff in H as [H H5]. apply andb_true_iff in H as [H H4].
+    apply andb_true_iff in H as [H H3]. apply andb_true_iff in H as [H1 H2]. repeat split; auto using is_nil_true.
+  - intros (H1 & H2 & H3 & H4 & H5 & H6). rewrite H1, H2, H3, H4, H5, H6. reflexivity.
+Qed.
+
+Lemma argwrites_ok_spec t :
+  argument_writes t = [] <-> forall s, In s (st_argwrites t) -> aw_handler s = false.
+Proof.
+  unfold argument_writes. split.
+  - intros H s Hs. destruct (aw_handler s) eqn:E; auto.
+    assert (In s (filter aw_handler (st_argwrites t))) by (apply filter_In; auto). rewrite H in H0. destruct H0.
+  - intro H. induction (st_argwrites t) as [|a l IH]; simpl; auto.
+    rewrite (H a (or_introl eq_refl)). apply IH. intros s Hs. apply H. right. exact Hs.
 Qed.
 
 Lemma process_ok_spec t :
@@ -635,6 +646,80 @@ Section InterleaveP.
         apply run_solo_ext; [apply proj_ext; exact Hr|]. intro g. apply view_step_other; auto.
   Qed.
 End InterleaveP.
+
+(* a store that both builders share but that no handler writes (objects the handlers receive as arguments: a component object
+   passed as component_obj to two builders is ONE cell of a Shared store) does not break the frame theorem: fields may be
+   Shared as long as every handler leaves them as it found them *)
+Section InterleaveFrozen.
+  Variables F V : Type.
+  Variable pl : F -> bool.
+
+  Notation view := (view F V pl).
+  Notation step := (step F V pl).
+  Notation run_sched := (run_sched F V pl).
+  Notation run_solo := (run_solo F V).
+  Notation proj := (proj F V).
+  Notation hext := (hext F V).
+
+  Definition leaves_shared (h : handler F V) : Prop := forall v f, pl f = false -> h v f = v f.
+
+  Lemma view_step_same_any w h s f : view w (step w h s) f = h (view w s) f.
+  Proof. unfold State.view, State.step. simpl. destruct (pl f) eqn:E; destruct w; simpl; rewrite ?E; reflexivity. Qed.
+
+  Lemma view_step_other_frozen w w' h s f : leaves_shared h -> w <> w' -> view w' (step w h s) f = view w' s f.
+  Proof.
+    intros L N. unfold State.view, State.step. simpl. destruct (pl f) eqn:E.
+    - destruct w, w'; simpl; try congruence; rewrite ?E; reflexivity.
+    - rewrite (L _ f E). unfold State.view. rewrite E. reflexivity.
+  Qed.
+
+  Theorem interleave_view_frozen :
+    forall sched, Forall hext (map snd sched) -> Forall leaves_shared (map snd sched) ->
+    forall w s f, view w (run_sched sched s) f = run_solo (proj w sched) (view w s) f.
+  Proof.
+    induction sched as [|[w' h] r IH]; intros Hx Hl w s f; simpl.
+    - reflexivity.
+    - inversion Hx as [|? ? Hh Hr]; subst. inversion Hl as [|? ? Lh Lr]; subst. rewrite (IH Hr Lr).
+      assert (PX : Forall hext (proj w r)).
+      { clear -Hr. unfold State.proj. induction r as [|[w2 h2] r IH]; simpl in *; auto.
+        inversion Hr; subst. destruct (who_eqb w2 w); simpl; auto. }
+      assert (RX : forall hs, Forall hext hs -> forall v1 v2, (forall g, v1 g = v2 g) -> forall g, run_solo hs v1 g = run_solo hs v2 g).
+      { induction 1 as [|h0 t Hh0 Ht IH0]; intros v1 v2 E g; simpl; [apply E|]. apply IH0. intro g'. apply Hh0. exact E. }
+      unfold State.proj. simpl. destruct (who_eqb w' w) eqn:E; simpl.
+      + assert (w' = w) by (destruct w', w; simpl in E; congruence). subst.
+        apply RX; [exact PX|]. intro g. apply view_step_same_any.
+      + assert (w' <> w) by (destruct w', w; simpl in E; congruence).
+        apply RX; [exact PX|]. intro g. apply view_step_other_frozen; auto.
+  Qed.
+End InterleaveFrozen.
+
+(* ... and a handler that WRITES the argument object is the refuted case.  Field true = the builder's own document (the number
+   of components in it, Own), field false = the flag on the component object the caller passed (Shared by both builders).
+   `append unless flagged, then flag`: B, given the object A has already seen, leaves the component out *)
+Definition flag_handler : handler bool nat :=
+  fun v f => if f then (match v false with 0 => S (v true) | _ => v true end) else 1.
+
+Theorem argument_flag_refuted :
+  let pl := fun f : bool => f in
+  let sched := [(WA, flag_handler); (WB, flag_handler)] in
+  let s := {| sh := fun _ => 0; ownA := fun _ => 0; ownB := fun _ => 0 |} in
+  Forall (hext bool nat) (map snd sched) /\
+  view bool nat pl WB (run_sched bool nat pl sched s) true = 0 /\
+  run_solo bool nat (proj bool nat WB sched) (view bool nat pl WB s) true = 1.
+Proof.
+  split; [|split; vm_compute; reflexivity].
+  assert (X : hext bool nat flag_handler).
+  { intros v1 v2 E f. unfold flag_handler. destruct f; [rewrite (E false), (E true)|]; reflexivity. }
+  simpl. constructor; [exact X|]. constructor; [exact X|]. constructor.
+Qed.
+
+(* the same two handlers, reading the flag but not writing it: every builder gets its component *)
+Example argument_read_only_example :
+  let pl := fun f : bool => f in
+  let h : handler bool nat := fun v f => if f then (match v false with 0 => S (v true) | _ => v true end) else v false in
+  forall w f, view bool nat pl w (run_sched bool nat pl [(WA, h); (WB, h); (WA, h)] {| sh := fun _ => 0; ownA := fun _ => 0; ownB := fun _ => 0 |}) f
+              = run_solo bool nat (proj bool nat w [(WA, h); (WB, h); (WA, h)]) (fun _ => 0) f.
+Proof. intros pl h w f. destruct w, f; vm_compute; reflexivity. Qed.
 
 (* one Shared field is enough to break it *)
 Theorem interleave_refuted :
